@@ -24,6 +24,24 @@ pub fn run<A: Cx>(d: &mut Drv<A>, scale: usize, all_offsets: bool, masking: bool
         ts.push("unmask");
     }
     let lens = boundary_lens(w);
+    // sequences that STORE alternative bit patterns (only a raw image gets them in): every symbol is
+    // transformed as the symbol it is, whatever pattern holds it
+    if !d.alt_patterns().is_empty() {
+        let all = d.patterns();
+        let alts = d.alt_patterns();
+        for n in [1usize, 3, 64 / w, 64 / w + 1, 2 * 64 / w + 3] {
+            let pats: Vec<u8> = (0..n).map(|i| if i % 2 == 0 { *d.rng.pick(&alts) } else { *d.rng.pick(&all) }).collect();
+            d.from_patterns(0, &pats);
+            for &tf in &ts {
+                d.emit(json!({"op": "copying", "dst": 2, "src": whole(0), "t": tf, "via": "seq"}));
+                d.emit(json!({"op": "copying", "dst": 3, "src": sl(0, n / 3, n), "t": tf, "via": "slice"}));
+                d.emit(json!({"op": "clone", "dst": 4, "r": 0}));
+                d.emit(json!({"op": "inplace", "dst": 4, "t": tf}));
+                d.emit(json!({"op": "inplace", "dst": 4, "t": tf}));
+            }
+            d.obs(whole(0));
+        }
+    }
     for _ in 0..scale.max(1) {
         for &n in &lens {
             let offs: Vec<usize> = if all_offsets {
